@@ -202,3 +202,21 @@ def same_xy_other_z(E, X, Y, rng=None):
     p = F.p
     b = E.b[0]
     return poly_roots_fp([pow(X, 3, p), (-Y * Y) % p, 0, b % p], p, rng)
+
+
+def endo_scalars(n):
+    """Scalars algebraically tied to the j = 0 endomorphism (x, y) -> (beta x, y) of a group of prime order n = 1 mod 3:
+    its eigenvalues lam (the two primitive cube roots of unity mod n) and their neighbours / small combinations.  k*P for
+    such k meets phi(P) and phi^2(P) - points with the same y - inside double-and-add ladders."""
+    if n % 3 != 1:
+        return []
+    g = 2
+    while True:
+        lam = pow(g, (n - 1) // 3, n)
+        if lam != 1:
+            break
+        g += 1
+    out = []
+    for l in (lam, lam * lam % n):
+        out += [l, l + 1, l - 1, 2 * (l + 1), 2 * (l + 1) + 1, n - l, n - l - 1, n - l + 1, 2 * l, 2 * l + 1, 3 * l, l + 2, (l + 1) * 4, (l + 1) * 4 + 3, l + n, 2 * l + 2 * n]
+    return [k for k in out if k > 0]
